@@ -222,6 +222,8 @@ def run(prop, tier, cfg, seed, env, work, replay, t_start):
 
     if fuzz_violation and violation is None:
         violation = fuzz_violation
+    if fuzz_info and not str(fuzz_info.get("status", "")).startswith("ok") and not fuzz_violation:
+        harness_trouble = harness_trouble or "native fuzz stage: %s" % fuzz_info.get("status")
 
     ev_path = os.path.join(VERIF, "evidence", "%s.json" % prop)
     known_lines = []
@@ -303,8 +305,8 @@ def run_fuzz(prop, cfg, env, work):
     pkgdir = os.path.join(HARNESS, pkg.lstrip("./"))
     crashdir = os.path.join(pkgdir, "testdata", "fuzz", target)
     before = set(os.listdir(crashdir)) if os.path.isdir(crashdir) else set()
-    cmd = [GO, "test", "-vet=off", "-tags", cfg.get("tags", "verif"), "-run", "^$", "-fuzz", "^%s$" % target,
-           "-fuzztime", "%ds" % secs, "-test.fuzzcachedir", cache, pkg]
+    cmd = [GO, "test", "-vet=off", "-tags", cfg.get("tags", "verif"), pkg, "-run", "^$", "-fuzz", "^%s$" % target,
+           "-fuzztime", "%ds" % secs, "-test.fuzzcachedir", cache]
     t0 = time.time()
     try:
         p = subprocess.run(cmd, cwd=HARNESS, env=e, stdout=subprocess.PIPE, stderr=subprocess.STDOUT, text=True, timeout=secs + 600)
